@@ -137,6 +137,9 @@ func FuncName(f *ssa.Function) string {
 	if f == nil {
 		return "<nil>"
 	}
+	if a, ok := aliases[f]; ok {
+		return a // a renamed function keeps the name the rules know it by (see anchors.go)
+	}
 	if f.Parent() != nil {
 		return FuncName(f.Parent()) + "$" + strings.TrimPrefix(f.Name(), f.Parent().Name()+"$")
 	}
